@@ -198,6 +198,9 @@ func (d *DKG) StoreResponses(participant string, responses []*dkg.Response) {
 	defer d.Unlock()
 
 	for _, resp := range responses {
+		if resp == nil || resp.Response == nil {
+			continue
+		}
 		d.responses.add(participant, int(resp.Response.Index), resp)
 	}
 }
